@@ -251,6 +251,10 @@ Print Assumptions C13_expired_never_during_a_renewal_refuted.
     (History form, evaluated on the implementation by [Check.run_ok]: a handshake answered with the
     initially cached expired certificate has waited, and an attempt for the name has failed since it was
     first seen waiting.) *)
+(** (The renew worker's counterpart, [C13_new_cert_after_renewal], has no hypothesis on the old
+    certificate still being cached: the reload step inserts the new one also when the old one has been
+    evicted meanwhile, [LEvict].  History form, second part ([Check.run_ok]): a handshake for the name
+    that has been seen waiting ends with an error only if an attempt has failed since it began waiting.) *)
 Theorem C13_waiters_of_a_successful_attempt_find_its_result :
   (forall s t th ch c0 b, t_pc th = PObtLoad ch -> store s (t_name th) = Some c0 ->
      exists s', thread_step s t th (AStep b) = Some s' /\
@@ -296,6 +300,13 @@ Theorem C13_background_renewal_outlives_its_handshake :
      thread_step s t th ACancel = None).
 Proof. split; [exact background_renewal_not_cancellable_early|exact background_worker_other_steps_not_cancellable]. Qed.
 Print Assumptions C13_background_renewal_outlives_its_handshake.
+
+(** every handshake ends with an error or a certificate, never with the empty certificate and a nil
+    error (C03's clause; clause of [Check.point_ok] on the implementation's positions) *)
+Theorem C13_no_handshake_returns_the_empty_certificate : forall s, reachable s ->
+  forall t th, thr s t = Some th -> t_pc th <> PDone REmpty.
+Proof. exact no_empty_result. Qed.
+Print Assumptions C13_no_handshake_returns_the_empty_certificate.
 
 (** the statement shapes of handshake.go that the LTS takes as atomic steps / literals are the
     ones in the source today (read by the translator on every run; a change breaks this proof) *)
